@@ -55,7 +55,39 @@ def notes_summary(path):
     return out
 
 
+def recheck(pid, v, extra):
+    """a later run of the checks against a change that was confirmed before (--recheck): the confirmation is kept, `checks` is replaced"""
+    dst = os.path.join(C.VERIF, "seeded", "%s%s" % (pid, v))
+    meta = json.load(open(os.path.join(dst, "meta.json")))
+    pat = copy_repo(pid + v + "r")
+    try:
+        rca, oa = sh("git apply %s" % os.path.join(dst, "patch.diff"), pat)
+        if rca != 0:
+            print(json.dumps(dict(property=pid, variant=v, recheck="patch does not apply")))
+            return
+        checks = {}
+        for p in [pid] + extra:
+            env = dict(os.environ, VERIF_REPO=pat, VERIF_EVIDENCE_DIR=os.path.join(pat, "_verif_evidence"), VERIF_CACHE_DIR=os.path.join(pat, "_verif_cache"))
+            t0 = time.time()
+            q = subprocess.run([os.path.join(C.VERIF, "check"), p, "--tier", "quick"], env=env, capture_output=True, text=True)
+            viol = [l for l in q.stdout.splitlines() if l.startswith("VIOLATION")]
+            checks[p] = dict(rc=q.returncode, violations=[x.split("#", 1)[-1].strip()[:200] for x in viol[:4]], wall_s=round(time.time() - t0))
+            if q.returncode not in (0, 1):
+                checks[p]["stderr"] = q.stderr[-600:]
+    finally:
+        shutil.rmtree(pat, ignore_errors=True)
+    meta = json.load(open(os.path.join(dst, "meta.json")))
+    meta["checks"] = checks
+    meta["caught_by"] = [p for p, c in checks.items() if c["rc"] == 1]
+    meta["rechecked_at"] = time.strftime("%Y-%m-%dT%H:%M:%S")
+    json.dump(meta, open(os.path.join(dst, "meta.json"), "w"), indent=1)
+    print(json.dumps(dict(property=pid, variant=v, recheck=True, caught_by=meta["caught_by"])), checks)
+
+
 def main():
+    if "--recheck" in sys.argv:
+        a = [x for x in sys.argv[1:] if x != "--recheck"]
+        return recheck(a[0], a[1], a[2:])
     pid, v = sys.argv[1], sys.argv[2]
     extra = sys.argv[3:]
     src = "/tmp/seed_%s_out/%s" % (pid, v)
